@@ -153,6 +153,10 @@ func checkQuantifier(r *Run, prog *Program, a *Anchors, pfx string) {
 				}
 				loopOK = zero && step
 			}
+			// the element loop is the one in which the body is evaluated (a loop that only collects the keys is not it)
+			if !loopEvaluatesBody(prog, a, b) {
+				continue
+			}
 			r.Check(pfx+".visit-order", "induction-variable", prog.pos(ifi.Pos()), loopOK, "the element loop must start at 0, step by +1 and run while i < Len() (index order, every element)")
 			headerT[fmt.Sprintf("%s.b%d:T", ff.Name(), b.Index)] = true
 		}
@@ -835,4 +839,37 @@ func init() {
 		r.Explain = "Decides: the element loop is the canonical ascending loop over 0..Len()-1; every iteration evaluates the body exactly once against the root datum, through the dispatcher; the first decisive element or first error ends the fold with the documented pair, exhaustion/emptiness gives all=true/any=false, absence likewise; the options handed to the body are a fresh copy of the incoming ones followed by the new bindings; each binding follows the statement's table (list: default/value alias, index concrete; map: default/index concrete key, value alias) and is made exactly when its name is set; alias paths are freshly made: collection path + index in base 10 / key; non-lists and non-string-keyed maps are rejected before any evaluation; the lookup scans bindings innermost-first, compares the first part of the path as rewritten so far, expands aliases into a new slice, and treats sub-selection of a key/index binding as an error; WithLocalVariable only pushes. NOT decided: equivalence with the unrolled expression on values; map visit order (C14)."
 		r.Assume = append(r.Assume, "body outcomes abstracted to true/false/error, the same for every iteration of one run")
 	})
+}
+
+// loopEvaluatesBody: some block of the loop calls the dispatcher, directly or through an unexported helper.
+func loopEvaluatesBody(prog *Program, a *Anchors, header *ssa.BasicBlock) bool {
+	var reaches func(f *ssa.Function, depth int) bool
+	reaches = func(f *ssa.Function, depth int) bool {
+		if f == a.Dispatch {
+			return true
+		}
+		if depth > 2 || !bexprHelper(prog, a, f) {
+			return false
+		}
+		for _, b := range f.Blocks {
+			for _, ins := range b.Instrs {
+				if c, ok := ins.(*ssa.Call); ok {
+					if g := c.Call.StaticCallee(); g != nil && g != f && reaches(g, depth+1) {
+						return true
+					}
+				}
+			}
+		}
+		return false
+	}
+	for b := range loopBlocks(header) {
+		for _, ins := range b.Instrs {
+			if c, ok := ins.(*ssa.Call); ok {
+				if g := c.Call.StaticCallee(); g != nil && reaches(g, 0) {
+					return true
+				}
+			}
+		}
+	}
+	return false
 }
